@@ -588,6 +588,8 @@ func RunIngressProgram(p *Program) *Result {
 			w.Res.logf("advance %s", s.D)
 		case "reload":
 			w.ReloadStep(s.NewSpec)
+		case "race":
+			w.RaceStep(s)
 		default:
 			w.Res.Trouble = "ingress world: unknown op " + s.Op
 		}
@@ -597,6 +599,172 @@ func RunIngressProgram(p *Program) *Result {
 	}
 	w.Res.SimTime = int64(w.Clock.Peek().Sub(start))
 	return w.Res
+}
+
+// RaceStep serves several requests concurrently: each is a task, every statement
+// of ServeHTTP, HMACAuth.Verify and the nonce cache is a scheduling point, and
+// the choice list decides who proceeds. Typically the requests are the same
+// signed request sent twice or three times at once (a captured request replayed
+// while the original is still in flight). Judged by invariants that hold for
+// every order: a captured request is honoured at most once (C09), and what was
+// added to the queue is exactly what the accepted answers stand for (C08/C02).
+func (w *IngressWorld) RaceStep(s Step) {
+	now := w.Clock.Peek()
+	w.Res.Ops++
+	type racer struct {
+		rs   ReqSpec
+		key  string // route|nonce|signed ts ("" if unsigned)
+		body []byte
+		task *Task
+		resp *Resp
+		rt   *RouteSpec
+	}
+	before, err := w.Listing()
+	if err != nil {
+		w.add("C02.list.error", "C02", "ingress/race", "listing failed: %v", err)
+		return
+	}
+	known := map[string]bool{}
+	for _, it := range before {
+		known[it.ID] = true
+	}
+	w.Net.AddEndpoint(&Endpoint{Host: "auth.example", Handler: func(*NetRequest) *NetAction { return &NetAction{Kind: "status", Status: 200} }})
+	var rc []*racer
+	for i := range s.Reqs {
+		rs := s.Reqs[i]
+		nsent := len(w.sent)
+		req, err := w.buildRequest(&rs)
+		if err != nil {
+			continue
+		}
+		r := &racer{rs: rs, body: rs.Body}
+		_ = nsent
+		if idx, _, _ := refResolve(w.Spec, req); idx >= 0 {
+			r.rt = &w.Spec.Routes[idx]
+		}
+		if r.rt != nil && r.rt.HMAC != nil {
+			// replay protection concerns the route that serves the request, and
+			// only if that route authenticates by HMAC
+			_, tsH, nonceH := hmacHeaders(r.rt.HMAC)
+			if n, ts := req.Header.Get(nonceH), req.Header.Get(tsH); n != "" && ts != "" {
+				r.key = r.rt.Path + "|" + n + "|" + ts
+			}
+		}
+		r.task = w.Start("race", w.Ingress, req)
+		rc = append(rc, r)
+	}
+	if len(rc) < 2 {
+		w.Res.logf("race: fewer than two buildable requests, skipped")
+		return
+	}
+	w.Sched.SetArmed(func(l string) bool {
+		return strings.HasPrefix(l, "ingress.Server.ServeHTTP#") || strings.HasPrefix(l, "ingress.HMACAuth.Verify#") || strings.HasPrefix(l, "ingress.nonceCache.")
+	})
+	w.Sched.DetectBlocked = true
+	tasks := make([]*Task, len(rc))
+	for i, r := range rc {
+		tasks[i] = r.task
+	}
+	sw0 := w.Sched.Switches
+	kind := w.Sched.InterleaveBlocking(tasks, s.Sched)
+	w.Sched.SetArmed(nil)
+	w.Sched.DetectBlocked = false
+	if kind != "done" {
+		if kind == "deadlock" {
+			w.add("race.deadlock", "C09,C12", "ingress/race", "concurrent ingress requests are stuck waiting for one another")
+			return
+		}
+		w.Res.Trouble = "race: " + kind + " " + w.Sched.Trouble
+		return
+	}
+	w.Res.Inter = w.Sched.TraceString()
+	if w.Sched.Switches-sw0 > 1 {
+		w.Res.probe("race.interleaved")
+	}
+	accepted := map[string]int{}
+	wantNew := map[string]int{} // route|target|payload -> count the accepted answers stand for
+	partial := map[string]int{} // same, upper bound contributed by 503 answers (fan-out prefix)
+	var sts []string
+	for i, r := range rc {
+		r.resp = w.finish(r.task, "done")
+		sts = append(sts, fmt.Sprintf("%d", r.resp.Status))
+		if r.resp.Status == 202 && r.key != "" {
+			accepted[r.key]++
+		}
+		if r.rt != nil && (r.resp.Status == 202 || r.resp.Status == 503) {
+			for _, tg := range r.rt.targets() {
+				k := r.rt.Path + "|" + tg + "|" + string(r.body)
+				if r.resp.Status == 202 {
+					wantNew[k]++
+				} else {
+					partial[k]++
+				}
+			}
+		}
+		if r.resp.Status == 202 && r.rt == nil {
+			w.add("C10.unreachable.accepted", "C10", "ingress/race", "racing request %d matches no inbound route but was accepted", i)
+		}
+	}
+	// rate limit: whatever the order, the requests that got past the limiter at
+	// this one instant must fit burst + rps x window
+	for _, r := range rc {
+		if r.rt == nil || r.resp.Status == http.StatusTooManyRequests {
+			continue
+		}
+		lim := w.limiters[r.rt.Path]
+		if lim == nil {
+			lim = w.limiters[""]
+		}
+		if lim == nil {
+			continue
+		}
+		if slack := lim.slack(now); slack < -1e-6 {
+			w.Res.probe("race.rate_exceeded")
+			w.add("C12.rate.exceeded", "C12", "ingress/race", "concurrent requests admitted beyond burst + rps x window (rps=%g burst=%g, %d admitted since %s, slack %.6f)", lim.rps, lim.burst, len(lim.admitted), lim.t0.Format("15:04:05.000"), slack)
+		}
+		lim.admitted = append(lim.admitted, now)
+		w.Res.probe("race.ratelimited.admitted")
+	}
+	w.Res.logf("race of %d requests at %s -> %s (%d switches)", len(rc), now.Format("15:04:05"), strings.Join(sts, " "), w.Sched.Switches-sw0)
+	for key, n := range accepted {
+		prev := 0
+		parts := strings.SplitN(key, "|", 3)
+		if byNonce := w.nonces[parts[0]]; byNonce != nil {
+			if rec := byNonce[parts[1]]; rec != nil {
+				if ts, err := strconv.ParseInt(parts[2], 10, 64); err == nil && rec.accepted[ts] {
+					prev = 1
+				}
+			}
+		}
+		if n+prev > 1 {
+			w.Res.probe("race.replay_accepted")
+			w.add("C09.replay.accepted", "C09,C08", "ingress/race", "the same signed request (route %s, nonce %q, timestamp %s) was honoured %d times when sent concurrently (%d earlier)", parts[0], parts[1], parts[2], n, prev)
+		}
+		if n+prev == 1 && n == 1 {
+			w.Res.probe("race.one_of_duplicates_accepted")
+		}
+	}
+	after, err := w.Listing()
+	if err != nil {
+		w.add("C02.list.error", "C02", "ingress/race", "listing failed: %v", err)
+		return
+	}
+	got := map[string]int{}
+	for _, it := range after {
+		if !known[it.ID] {
+			got[it.Route+"|"+it.Target+"|"+string(it.Payload)]++
+		}
+	}
+	for k, n := range got {
+		if n > wantNew[k]+partial[k] {
+			w.add("C08.race.extra", "C08,C02,C09", "ingress/race", "after the race the queue holds %d new message(s) %q, the accepted answers stand for %d", n, k, wantNew[k]+partial[k])
+		}
+	}
+	for k, n := range wantNew {
+		if got[k] < n && w.Spec.MaxDepth == 0 {
+			w.add("C01.race.missing", "C01,C02", "ingress/race", "accepted answers stand for %d message(s) %q, the queue holds %d", n, k, got[k])
+		}
+	}
 }
 
 func sortInts(a []int) { sort.Ints(a) }
